@@ -77,7 +77,7 @@ if __name__ == "__main__":
         print("==", r["qualname"], r["status"], r["reason"], "paths", r["paths"], "requires", r.get("requires_sat"))
         for o in r["obligations"]:
             if o["verdict"] != "proved" or os.environ.get("V"):
-                print("   ", o["verdict"], o["id"], "L%s" % o["line"], o["time"], o["desc"][:150], o["trace"])
+                print("   ", o["verdict"], o["id"], "L%s" % o["line"], o["time"], "[%s]" % o["backend"][:40], o["desc"][:150], o["trace"])
                 if o["verdict"] == "failed" and os.environ.get("M"):
                     print("      model:", o["model"])
         n = len(r["obligations"]); p = sum(o["verdict"] == "proved" for o in r["obligations"])
